@@ -30,6 +30,13 @@ impl Ctx {
     pub fn shard_seed(&self, id: &str) -> u64 {
         mix(self.seed ^ mix(crate::gen::fp_bytes(id.as_bytes())) ^ mix(self.shard as u64 + 1))
     }
+    /// Record the case about to be executed, so that a shard that dies or hangs leaves its reproduction
+    /// behind (used by the runner for generated cases and by enumerations that run searches)
+    pub fn note_inflight<C: Serialize>(&self, id: &str, case: &C) {
+        let v = json!({ "property": id, "signature": "inflight", "detail": "case that was executing when the shard died or hung", "case": case });
+        let _ = std::fs::write(format!("{}/inflight-{}.json", self.outdir, self.shard), serde_json::to_string(&v).unwrap());
+    }
+
     /// Does this shard own item `i` of a deterministic enumeration
     pub fn owns(&self, i: u64) -> bool {
         i % self.nshards as u64 == self.shard as u64
@@ -344,7 +351,8 @@ impl<P: Prop> DynProp for P {
                             let (sh, _) = kids.remove(i);
                             let ok = st.success() && std::path::Path::new(&format!("{}/shard-{}.json", outdir, sh)).exists();
                             use std::os::unix::process::ExitStatusExt;
-                            out.push((sh, if ok { Outcome::Ok } else { Outcome::Died(st.signal().unwrap_or_else(|| st.code().unwrap_or(-1))) }));
+                            let code = st.signal().unwrap_or_else(|| st.code().unwrap_or(-1));
+                            out.push((sh, if ok { Outcome::Ok } else if st.code() == Some(crate::srch::HANG_EXIT_CODE) { Outcome::Hung } else { Outcome::Died(code) }));
                         }
                         _ => i += 1,
                     }
